@@ -120,6 +120,9 @@ type vfPair struct {
 	wireC2S  vfWireTrack
 	wireS2C  vfWireTrack
 	maxDgram int
+	mtuNow   int  // C10: MTU currently in force at the client (0 = configured)
+	shrunk   bool // C10: the MTU was reduced while data was queued or in flight
+	exempt   int  // C10: client datagrams still in the transmit pipeline when SetMtu was called
 }
 
 func (p *vfPair) owned(sig string) bool {
@@ -219,9 +222,19 @@ func vfPairSetup(cfg vfPairCfg) *vfPair {
 			if limit == 0 {
 				limit = IKCP_MTU_DEF
 			}
+			limit = min(limit, 1500)
 			_ = sess
-			if len(data) > limit {
-				p.bad("C10:datagram-exceeds-mtu", "%s handed a %d-byte datagram to the socket, session MTU is %d", who, len(data), limit)
+			sig := "C10:datagram-exceeds-mtu"
+			if from == p.csock && p.mtuNow != 0 {
+				limit = p.mtuNow
+				if p.shrunk {
+					sig = "C10:datagram-exceeds-mtu:after-mtu-shrink-with-data-queued"
+				}
+			}
+			if from == p.csock && p.exempt > 0 {
+				p.exempt--
+			} else if len(data) > limit {
+				p.bad(sig, "%s handed a %d-byte datagram to the socket, session MTU is %d", who, len(data), limit)
 			}
 			if len(data) == 0 {
 				p.bad("C10:empty-datagram", "%s handed an empty datagram to the socket", who)
@@ -279,6 +292,23 @@ func (p *vfPair) writer(s *UDPSession, end int, sizes []int, accepted *[]byte) {
 			return
 		}
 		*accepted = append(*accepted, b...)
+	}
+}
+
+// writer2 continues a write sequence at index from (payload offsets stay consistent).
+func (p *vfPair) writer2(s *UDPSession, end int, sizes []int, from int, accepted *[]byte) {
+	off := 0
+	for i, n := range sizes {
+		if i >= from {
+			b := vfPayload(end, n, off)
+			w, err := s.Write(b)
+			if err != nil || w != n {
+				p.bad("C01:write-error", "Write of %d bytes returned %d, %v", n, w, err)
+				return
+			}
+			*accepted = append(*accepted, b...)
+		}
+		off += n
 	}
 }
 
@@ -368,7 +398,9 @@ func (p *vfPair) traffic() {
 			p.bad("C11:accept-error", "Accept failed: %v", err)
 			return
 		}
+		p.mu.Lock()
 		p.server = s
+		p.mu.Unlock()
 		p.tune(s)
 		var w2 vrt.WaitGroup
 		if len(cfg.WritesBack) > 0 {
@@ -425,6 +457,26 @@ func (p *vfPair) teardown() {
 	p.csock.Close()
 	p.lsock.Close()
 	vrt.Idle(2 * time.Second)
+	// sessions the listener created but nobody ever accepted: nobody can close them (known finding, see
+	// known_findings.json); the harness closes them itself and looks again, so that any OTHER leak is
+	// still reported under its own signature
+	leakedBacklog := 0
+	for p.listener.chAccepts.Len() > 0 {
+		var s *UDPSession
+		if vrt.Select(true, p.listener.chAccepts.RecvCase(&s, nil)) != 0 || s == nil {
+			break
+		}
+		if !s.isClosed() {
+			leakedBacklog++
+			s.Close()
+		}
+	}
+	if leakedBacklog > 0 {
+		vrt.Idle(2 * time.Second)
+	}
+	if n := vrt.ArmedTimers(); n > 0 {
+		p.bad("C15:scheduled-callback-left-after-close", "%d timer(s) still armed 2s (virtual) after sessions, listener and sockets were closed: a scheduled callback keeps re-arming", n)
+	}
 	SystemTimedSched.Close()
 	vrt.Idle(2 * time.Second)
 	var left []string
@@ -435,6 +487,10 @@ func (p *vfPair) teardown() {
 	}
 	if len(left) > 0 {
 		p.bad("C15:goroutine-left-after-close", "library goroutines still alive after Close of sessions, listener, sockets and scheduler: %v", left)
+	}
+	if leakedBacklog > 0 {
+		p.bad("C15:unaccepted-session-leaked-at-listener-close", "%d session(s) were created by the listener and were still in its accept backlog when it was closed: "+
+			"nothing closes them, so their update callback re-arms forever and their postProcess goroutine never exits", leakedBacklog)
 	}
 	if msg := vrt.PoolVerify(); msg != "" {
 		p.bad("C15:"+firstWords(msg, 5), "%s", msg)
@@ -479,6 +535,9 @@ func vfPairRun(cfg vfPairCfg, bound int, body func(p *vfPair)) explore.RunFunc {
 		switch {
 		case out.Status == vrt.Panicked:
 			v.Violation, v.Signature = out.Fail+"\n"+out.Stack, owner+"panic:"+vfPanicSite(out.Stack)
+			if p != nil && p.shrunk {
+				v.Signature += ":after-mtu-shrink-with-data-queued"
+			}
 		case out.Status == vrt.Failed:
 			if p == nil || p.owned("C15:") || strings.HasPrefix(out.Fail, "pool:") == false {
 				v.Violation, v.Signature = out.Fail, "C15:"+firstWords(out.Fail, 5)
